@@ -58,6 +58,21 @@ api_pre(const char *fam)
         return !strcmp(fam, "isal") ? "isal_" : !strcmp(fam, "legacy") ? "" : "_";
 }
 
+static void
+ev_desc2(const char *k, uint32_t b, uint64_t off)
+{
+        char s[64];
+        snprintf(s, sizeof s, "[%u,%llu]", b, (unsigned long long) (off & (PAT_PERIOD - 1)));
+        ev_raw(k, s);
+}
+static void
+ev_desc3(const char *k, uint32_t b, uint64_t off, uint64_t len)
+{
+        char s[96];
+        snprintf(s, sizeof s, "[%u,%llu,%llu]", b, (unsigned long long) (off & (PAT_PERIOD - 1)), (unsigned long long) len);
+        ev_raw(k, s);
+}
+
 /* ------------------------------------------------------------------ GCM key data */
 static void
 gcm_make_key(const char *fam, int bits, gbuf *kd, gbuf *key, uint32_t kb, uint64_t ko, obs *o_out, uint64_t *rc_out)
@@ -89,25 +104,18 @@ gcm_make_key(const char *fam, int bits, gbuf *kd, gbuf *key, uint32_t kb, uint64
                         vcall(need("_aes_gcm_precomp_%d_%s", bits, fam), 1, b, &o);
                 }
         }
+        ev_begin("GcmPre");
+        ev_str("fam", fam);
+        ev_int("bits", bits);
+        ev_desc2("key", kb, ko);
+        if (vc_dump_secrets)
+                ev_hex("kd", kd->p, kd->len);
+        ev_obs(&o);
+        ev_end();
         if (o_out)
                 *o_out = o;
         if (rc_out)
                 *rc_out = !strcmp(fam, "isal") ? (uint64_t) (int) r : 0;
-}
-
-static void
-ev_desc2(const char *k, uint32_t b, uint64_t off)
-{
-        char s[64];
-        snprintf(s, sizeof s, "[%u,%llu]", b, (unsigned long long) (off & (PAT_PERIOD - 1)));
-        ev_raw(k, s);
-}
-static void
-ev_desc3(const char *k, uint32_t b, uint64_t off, uint64_t len)
-{
-        char s[96];
-        snprintf(s, sizeof s, "[%u,%llu,%llu]", b, (unsigned long long) (off & (PAT_PERIOD - 1)), (unsigned long long) len);
-        ev_raw(k, s);
 }
 
 /* gcm fam bits dir nt kb ko ib io ab ao alen db do len tlen inpl pin pout paad piv ptag */
